@@ -193,9 +193,81 @@ async fn lifecycle(r: &mut Rng) -> (String, String) {
     (format!("lifecycle:{sig}"), "ok".into())
 }
 
+/// C10: the configured default behaviour for exhausted local ports (fail / wait / wait with a time limit).
+async fn exhaustion(r: &mut Rng) -> (String, String) {
+    use remoc::chmux::PortsExhausted;
+    let policy = r.below(3);
+    let limit = Duration::from_millis(*r.pick(&[5u64, 200, 60_000]));
+    let mut ca = cfg(r, None);
+    ca.max_ports = r.range(1, 3) as u32;
+    ca.ports_exhausted = match policy {
+        0 => PortsExhausted::Fail,
+        1 => PortsExhausted::Wait(None),
+        _ => PortsExhausted::Wait(Some(limit)),
+    };
+    let mut cb = cfg(r, None);
+    cb.max_ports = 100;
+    cb.connect_queue = 8;
+    let k = ca.max_ports;
+    let mut p = conn::connect(ca, cb).await;
+    let sig = format!("exhaustion:p{policy}:k{k}");
+    let mut held = Vec::new();
+    for _ in 0..k {
+        held.push(conn::open_port(&mut p).await);
+    }
+    // all local ports of A are in use now
+    let c = p.a_client.clone();
+    let t0 = tokio::time::Instant::now();
+    let task = tokio::spawn(async move { c.connect().await.map(|_| ()) });
+    quiesce().await;
+    match policy {
+        0 => {
+            if !task.is_finished() {
+                return (sig, "FAIL: C10 connect waits although PortsExhausted::Fail is configured and all local ports are in use".into());
+            }
+            match task.await.unwrap() {
+                Err(ConnectError::LocalPortsExhausted) => {}
+                other => return (sig, format!("FAIL: C10 connect with exhausted local ports ended with {other:?} instead of LocalPortsExhausted")),
+            }
+        }
+        1 => {
+            tokio::time::sleep(Duration::from_secs(3600)).await;
+            if task.is_finished() {
+                return (sig, "FAIL: C10 connect gave up although PortsExhausted::Wait(None) is configured".into());
+            }
+            // a port becomes free: the connect must go through
+            held.pop();
+            let acc = p.b_listener.accept();
+            let _ = tokio::time::timeout(Duration::from_secs(10), acc).await;
+            quiesce().await;
+            if !task.is_finished() {
+                return (sig, "FAIL: C10 waiting connect did not proceed when a local port became free".into());
+            }
+        }
+        _ => {
+            tokio::time::sleep(limit + Duration::from_millis(50)).await;
+            quiesce().await;
+            if !task.is_finished() {
+                return (sig, format!("FAIL: C10 connect still waiting after the configured limit {:?}", limit));
+            }
+            match task.await.unwrap() {
+                Err(ConnectError::LocalPortsExhausted) => {}
+                other => return (sig, format!("FAIL: C10 connect after the time limit ended with {other:?} instead of LocalPortsExhausted")),
+            }
+            if t0.elapsed() < limit {
+                return (sig, "FAIL: C10 connect gave up before the configured limit".into());
+            }
+        }
+    }
+    (sig, "ok".into())
+}
+
 /// C10: concurrent connects against a listener that accepts, rejects or drops; outcome per request,
 /// true refusal reason, pairing by label exchange.
 async fn connects(r: &mut Rng) -> (String, String) {
+    if r.chance(1, 4) {
+        return exhaustion(r).await;
+    }
     let ca = cfg(r, None);
     let cb = cfg(r, None);
     let mut p = conn::connect(ca, cb.clone()).await;
